@@ -11,6 +11,7 @@
 import C4E.Vesting
 import C4E.Distr1
 import C4E.Lemmas.AListLemmas
+import C4E.Lemmas.VestBacked
 namespace C4E.Props.C01
 open C4E C4E.CoinList
 
@@ -51,6 +52,255 @@ theorem payout_conserves (sts : List Distr1.St) (fails : List Bool) (main : Int)
     main - (Distr1.payout fails main sts).1 = Distr1.sumRem sts - Distr1.sumRem (Distr1.payout fails main sts).2 := by
   have := (Distr1.payout_spec sts fails main h).1
   omega
+
+/-! ### vesting messages never change the supply — over every history -/
+
+open C4E.Vest in
+/-- all coins of denomination `d` held by any account -/
+def totalBal (d : String) (s : Vest.State) : Int := sumInts (s.bal.map (fun kv => amountOf kv.2 d))
+
+theorem total_set (d : String) (m : AList Coins) (k : String) (v : Coins) :
+    sumInts ((m.set k v).map (fun kv => amountOf kv.2 d))
+      = sumInts (m.map (fun kv => amountOf kv.2 d)) - amountOf ((m.get? k).getD []) d + amountOf v d := by
+  induction m with
+  | nil => simp [AList.set, AList.get?, amountOf]
+  | cons kv rest ih =>
+    obtain ⟨k', v'⟩ := kv
+    unfold AList.set AList.get?
+    by_cases h : k' = k
+    · simp only [h, if_true, List.map_cons, sumInts_cons, Option.getD_some]; omega
+    · simp only [h, if_false, List.map_cons, sumInts_cons, ih]; omega
+
+open C4E.Vest in
+/-- a bank send conserves the total of every denomination (also when sender = recipient) -/
+theorem applySend_total (s : Vest.State) (src dst : String) (c : Coins) (d : String) :
+    totalBal d (s.applySend src dst c) = totalBal d s := by
+  unfold totalBal Vest.State.applySend Vest.State.balance
+  simp only []
+  rw [total_set, total_set, amountOf_add, amountOf_add, amountOf_neg]
+  omega
+
+open C4E.Vest in
+theorem send_total {s s' : Vest.State} {src dst : String} {c : Coins} (h : s.send src dst c = .ok s') (d : String) :
+    totalBal d s' = totalBal d s := by
+  have := send_ok_eq _ _ _ _ _ h; subst this; exact applySend_total s src dst c d
+
+open C4E.Vest in
+theorem sendFromModule_total {s s' : Vest.State} {dst : String} {c : Coins} (h : s.sendFromModule dst c = .ok s') (d : String) :
+    totalBal d s' = totalBal d s := by
+  unfold Vest.State.sendFromModule at h
+  split at h
+  · cases h
+  · exact send_total h d
+
+open C4E.Vest in
+theorem withdrawAll_total {s : Vest.State} {o : Addr} {res : Res} (h : withdrawAll s o = .ok res) (d : String) :
+    totalBal d res.st = totalBal d s := by
+  unfold withdrawAll at h
+  split at h
+  · cases h
+  · split at h
+    · cases h
+    · split at h
+      · cases h
+      · simp only [] at h
+        split at h
+        · rename_i s1 hsent
+          split at h
+          · cases h
+          · cases h
+            have h1 : totalBal d s1 = totalBal d s := by
+              split at hsent
+              all_goals first | exact sendFromModule_total hsent d | (cases hsent; rfl) | cases hsent
+            exact h1
+        · cases h
+        · cases h
+
+open C4E.Vest in
+theorem newVestingAccount_total {s s' : Vest.State} {to : String} {amount free le ve : Int}
+    (h : newVestingAccount s to amount free le ve = .ok s') (d : String) : totalBal d s' = totalBal d s := by
+  unfold newVestingAccount at h
+  split at h
+  · cases h
+  · split at h
+    · cases h
+    · split at h
+      · cases h
+      · simp only [] at h
+        split at h
+        · cases h
+        · split at h
+          · rename_i s2 hsend
+            cases h
+            exact sendFromModule_total hsend d
+          · cases h
+          · cases h
+
+open C4E.Vest in
+theorem unlock_bal {s s1 : Vest.State} {owner : String} {amt : Coins} {a : Acct}
+    (h : unlockUnbonded s owner amt = .ok (s1, a)) : s1.bal = s.bal := by
+  unfold unlockUnbonded at h
+  split at h
+  · cases h
+  · split at h
+    · cases h
+    · split at h
+      · cases h
+      · split at h
+        · cases h
+        · split at h
+          · cases h
+          · split at h
+            · cases h
+            · split at h
+              · cases h; rfl
+              · cases h
+              · cases h
+
+open C4E.Vest in
+theorem splitCoins_total {s : Vest.State} {src to : String} {amount : Coins} {res : Res}
+    (h : splitCoins s src to amount = .ok res) (d : String) : totalBal d res.st = totalBal d s := by
+  unfold splitCoins at h
+  split at h
+  · cases h
+  · split at h
+    · cases h
+    · split at h
+      · cases h
+      · split at h
+        · cases h
+        · cases h
+        · rename_i s1 vacc hu
+          have hb := unlock_bal hu
+          simp only [] at h
+          split at h
+          · cases h
+          · cases h
+          · rename_i s3 hsend
+            have h3 := send_total hsend d
+            have h1 : totalBal d s1 = totalBal d s := by unfold totalBal; rw [hb]
+            split at h
+            · cases h; exact h3.trans h1
+            · cases h; exact h3.trans h1
+
+open C4E.Vest in
+/-- every successfully handled vesting message leaves the total of every denomination unchanged -/
+theorem handle_total (s : Vest.State) (m : Msg) (res : Res) (h : handle s m = .ok res) (d : String) :
+    totalBal d res.st = totalBal d s := by
+  cases m with
+  | createPool o name amount dur vt =>
+    simp only [handle] at h
+    cases amount with
+    | none => cases h
+    | some a =>
+      simp only [] at h
+      unfold createPool at h
+      split at h
+      · cases h
+      · split at h
+        · cases h
+        · split at h
+          · cases h
+          · split at h
+            · cases h
+            · simp only [] at h
+              split at h
+              · cases h
+              · split at h
+                · rename_i s1 hsend
+                  cases h
+                  exact send_total hsend d
+                · cases h
+                · cases h
+  | withdraw o => simp only [handle] at h; exact withdrawAll_total h d
+  | send o to pool amount restart =>
+    simp only [handle] at h
+    cases amount with
+    | none => cases h
+    | some a =>
+      simp only [] at h
+      unfold sendToNew at h
+      split at h
+      · cases h
+      · split at h
+        · cases h
+        · cases h
+        · rename_i w hw
+          have h1 := withdrawAll_total hw d
+          simp only [] at h
+          split at h
+          · cases h
+          · split at h
+            · cases h
+            · split at h
+              · cases h
+              · split at h
+                · cases h
+                · split at h
+                  · cases h
+                  · split at h
+                    · cases h
+                    · cases h
+                    · rename_i s2 hr
+                      cases h
+                      have h2 : totalBal d s2 = totalBal d w.st := by
+                        cases restart
+                        · simp only [Bool.false_eq_true, if_false] at hr; exact newVestingAccount_total hr d
+                        · simp only [if_true] at hr; exact newVestingAccount_total hr d
+                      exact h2.trans h1
+  | createVA f to amount a b =>
+    simp only [handle] at h
+    cases amount with
+    | none => cases h
+    | some c =>
+      simp only [] at h
+      split at h
+      · cases h
+      · unfold createVA at h
+        split at h
+        · cases h
+        · simp only [] at h
+          split at h
+          · cases h
+          · split at h
+            · cases h
+            · split at h
+              · rename_i s2 hsend
+                cases h
+                exact send_total hsend d
+              · cases h
+              · cases h
+  | split f to amount =>
+    simp only [handle] at h
+    cases amount with
+    | none => cases h
+    | some c =>
+      simp only [] at h
+      split at h <;> first | cases h | exact splitCoins_total h d | (split at h <;> first | cases h | exact splitCoins_total h d)
+  | move f to =>
+    simp only [handle] at h
+    split at h <;> first | cases h | exact splitCoins_total h d | (split at h <;> first | cases h | exact splitCoins_total h d)
+  | moveDenoms f to denoms =>
+    simp only [handle] at h
+    split at h <;> first | cases h | exact splitCoins_total h d | (split at h <;> first | cases h | exact splitCoins_total h d)
+
+open C4E.Vest in
+/-- **no sequence of vesting messages — accepted, rejected or panicking — ever changes the total
+    of any denomination**: the vesting module has no path to mint or burn -/
+theorem vesting_never_changes_supply (msgs : List Msg) (d : String) : ∀ s : Vest.State,
+    totalBal d (msgs.foldl (fun st m => (deliver st m).1) s) = totalBal d s := by
+  induction msgs with
+  | nil => intro s; rfl
+  | cons m rest ih =>
+    intro s
+    rw [List.foldl_cons, ih]
+    unfold deliver
+    split
+    · rfl
+    · cases hh : handle s m with
+      | ok r => exact handle_total s m r hh d
+      | err => rfl
+      | panic => rfl
 
 /-- the hypotheses are satisfiable (two distinct parties) -/
 theorem nonvacuous : ("sender" : String) ≠ "recipient" := by decide
